@@ -829,26 +829,26 @@ class bpseq_elements_prefix:
          "do": ["let S = self.stems_", "let GS = __stems_entries_GS", "let E = self.entries", "let DB = self.dot_bracket_.structure",
                 "let n = len(E)"]},
         {"when": "after", "at": "stem = Stem.from_bpseq_entries(", "loop": 0, "label": "stem-k",
-         "do": ["let T = S[k]", "let w = len(T)",
+         "do": ["let T = S[k]", "let w = len(T)", "let i0 = T[0].index_ - 1", "let i1 = T[0].index_ + w - 2",
                 "assert stem_of(stem, T) and strand_at(stem.strand5p, E, DB, T[0].index_ - 1, w) and strand_at(stem.strand3p, E, DB, T[0].pair - w, w)",
                 "assert w >= 1 and 1 <= T[0].index_ and T[0].index_ + w - 1 < T[0].pair - w + 1 and T[0].pair <= n",
-                "assert E[T[0].index_ - 1] is T[0] and E[T[0].index_ + w - 2] is T[w - 1] and T[w - 1].pair == T[0].pair - w + 1",
-                "assert E[T[0].index_ - 1].pair != 0 and E[T[0].index_ + w - 2].pair != 0",
-                "assert E[T[0].pair - 1].pair == T[0].index_ and E[T[w - 1].pair - 1].pair == T[w - 1].index_",
-                "assert E[T[0].pair - 1].pair != 0 and E[T[0].pair - w].pair != 0",
+                "assert T[0] is E[i0] and T[w - 1] is E[i1] and T[w - 1].pair == T[0].pair - (w - 1)",
+                "assert 0 <= i0 and i0 <= i1 and i1 < n and E[i0].pair == T[0].pair and E[i1].pair == T[0].pair - w + 1",
+                "assert E[i0].pair > 0 and E[i1].pair > 0 and E[i0].pair <= n and E[i1].pair <= n and E[i0].index_ == i0 + 1 and E[i1].index_ == i1 + 1",
+                "assert E[E[i0].pair - 1].pair == i0 + 1 and E[E[i1].pair - 1].pair == i1 + 1",
                 "let e1 = stem.strand5p.first - 1", "let e2 = stem.strand5p.last - 1", "let e3 = stem.strand3p.first - 1", "let e4 = stem.strand3p.last - 1",
-                "assert e1 == T[0].index_ - 1 and e2 == T[0].index_ + w - 2 and e3 == T[0].pair - w and e4 == T[0].pair - 1",
-                "assert 0 <= e1 and e1 < n and 0 <= e2 and e2 < n and 0 <= e3 and e3 < n and 0 <= e4 and e4 < n",
-                "assert E[e1].pair != 0 and E[e2].pair != 0 and E[e3].pair != 0 and E[e4].pair != 0",
+                "assert e1 == i0 and e2 == i1 and e3 == E[i1].pair - 1 and e4 == E[i0].pair - 1",
+                "assert_last 4 0 <= e1 and e1 < n and 0 <= e2 and e2 < n and 0 <= e3 and e3 < n and 0 <= e4 and e4 < n",
+                "assert_last 5 E[e1].pair != 0 and E[e2].pair != 0 and E[e3].pair != 0 and E[e4].pair != 0",
                 "let ST0 = stems", "let SS0 = stopset"]},
         {"when": "after", "at": "stopset.add(stem.strand3p.last - 1)", "loop": 0, "label": "stops-k",
-         "do": ["forall x | assert implies(x in stopset, x in SS0 or x == e1 or x == e2 or x == e3 or x == e4)"
-                " | assert implies(x in stopset, 0 <= x and x < n and E[x].pair != 0)",
-                "forall a | assert implies(0 <= a and a < k, (S[a][0].index_ - 1) in SS0 and (S[a][0].pair - 1) in SS0)"
-                " | assert implies(0 <= a and a < k + 1, (S[a][0].index_ - 1) in stopset and (S[a][0].pair - 1) in stopset)",
-                "forall a | assert implies(0 <= a and a < k, stems[a] is ST0[a])"
-                " | assert implies(0 <= a and a < k + 1, stem_of(stems[a], S[a]) and strand_at(stems[a].strand5p, E, DB, S[a][0].index_ - 1, len(S[a]))"
-                " and strand_at(stems[a].strand3p, E, DB, S[a][0].pair - len(S[a]), len(S[a])))"]},
+         "do": ["assert len(ST0) == k and stem_strands(ST0, S, E, DB, k)",
+                "assert stem_of(stem, T) and strand_at(stem.strand5p, E, DB, T[0].index_ - 1, w) and strand_at(stem.strand3p, E, DB, T[0].pair - w, w)",
+                "assert_last 2 stem_strands(stems, S, E, DB, k + 1)",
+                "assert stop_ends(SS0, E, S, k)",
+                "assert e1 == T[0].index_ - 1 and e4 == T[0].pair - 1 and 0 <= e1 and e1 < n and 0 <= e2 and e2 < n and 0 <= e3 and e3 < n and 0 <= e4 and e4 < n"
+                " and E[e1].pair != 0 and E[e2].pair != 0 and E[e3].pair != 0 and E[e4].pair != 0",
+                "assert_last 2 stop_ends(stopset, E, S, k + 1)"]},
         {"when": "after", "at": "stops = sorted(stopset)", "label": "stops",
          "do": ["let IX = SORTED_IDX", "let f0 = S[0][0].index_ - 1",
                 "assert len(S) > 0 and f0 in stopset",
@@ -873,31 +873,53 @@ class bpseq_elements_prefix:
                 " | assert implies(c, p0 <= x and x <= p1)",
                 "assert 0 <= p0 and p0 <= p1 and p1 < n and E[p0].pair != 0 and E[p1].pair != 0"]},
         {"when": "before", "at": "if all([entry.pair == 0 for entry in candidate[1:-1]])", "loop": 1, "label": "candidate",
-         "do": ["let p = stops[i - 1]", "let q = stops[i]",
+         "do": ["let p = stops[i - 1]", "let q = stops[i]", "let C1 = candidate[1:-1]",
+                # (the slices carry Python's index normalisation as nested conditionals: every step is proved from the few
+                # ground facts it needs)
                 "assert 0 <= p and p < q and q < n and E[p].pair != 0 and E[q].pair != 0",
-                "assert len(candidate) == q - p + 1",
-                "forall t | assert implies(0 <= t and t < q - p + 1, candidate[t] is E[p + t] and candidate[t].index_ == p + t + 1)",
+                "assert len(DB) == n",
+                "assert i >= 1 and i < len(stops) and n == len(E) and n >= 0",
+                "assert_last 3 len(candidate) == q - p + 1 and len(C1) == q - p - 1",
+                "forall t | assert_last 4 implies(0 <= t and t < q - p + 1, candidate[t] is E[p + t])"
+                " | assert implies(0 <= t and t < q - p + 1, candidate[t] is E[p + t])",
+                "forall t | assert_last 5 implies(0 <= t and t < q - p - 1, C1[t] is E[p + 1 + t])"
+                " | assert implies(0 <= t and t < q - p - 1, C1[t] is E[p + 1 + t])",
+                "assert_last 6 candidate[0] is E[p] and candidate[len(candidate) - 1] is E[q] and candidate[-1] is E[q]",
+                "assert E[p].index_ == p + 1 and E[q].index_ == q + 1",
                 "let HP0 = hairpins", "let LC0 = loop_candidates"]},
-        {"when": "after", "at": "hairpins.append(", "loop": 1, "label": "hairpin",
-         "do": ["let h = hairpins[len(hairpins) - 1]", "let sd = h.strand",
-                "assert strand_of(sd, candidate, DB)",
-                "assert sd.first == p + 1 and sd.last == q + 1 and E[p].pair == q + 1",
-                "forall x | assert implies(p + 1 <= x and x < q, candidate[1:-1][x - p - 1] is E[x])"
+        {"when": "before", "at": "if candidate[0].pair == candidate[-1].index_", "loop": 1, "label": "interior",
+         "do": ["assert_last 1 forall(lambda t: implies(0 <= t and t < len(C1), C1[t].pair == 0))",
+                "assert len(C1) == q - p - 1",
+                "forall t | assert implies(0 <= t and t < q - p - 1, C1[t] is E[p + 1 + t])",
+                "assert forall(lambda t: implies(0 <= t and t < len(C1), C1[t].pair == 0))",
+                "assert len(C1) == q - p - 1",
+                "assert_last 3 forall(lambda t: implies(0 <= t and t < q - p - 1, C1[t] is E[p + 1 + t] and C1[t].pair == 0))",
+                "forall x | assert_last 1 implies(p + 1 <= x and x < q, C1[x - p - 1] is E[p + 1 + (x - p - 1)] and C1[x - p - 1].pair == 0)"
+                " | assert_last 1 implies(p + 1 <= x and x < q, E[x].pair == 0)"
                 " | assert implies(p + 1 <= x and x < q, E[x].pair == 0)",
-                "assert strand_at(sd, E, DB, p, q - p + 1)",
-                "assert hairpin_ok(h, E, DB)",
-                "forall b | assert implies(0 <= b and b < len(HP0), hairpins[b] is HP0[b] and ident(HP0[b]) < ident(h))"
-                " | assert implies(0 <= b and b < len(HP0), hairpin_ok(hairpins[b], E, DB))"]},
+                "assert candidate[0] is E[p] and candidate[-1] is E[q] and E[q].index_ == q + 1",
+                "assert_last 1 (candidate[0].pair == candidate[-1].index_) == (E[p].pair == q + 1)",
+                "assert len(candidate) == q - p + 1 and candidate[0].index_ == p + 1 and 0 <= p and p < q and q < n and n == len(E) and len(DB) == n",
+                "assert forall(lambda t: implies(0 <= t and t < q - p + 1, candidate[t] is E[p + t]))",
+                "assert forall(lambda x: implies(p + 1 <= x and x < q, E[x].pair == 0))",
+                "let fr0 = frontier()",
+                "assert len(HP0) >= 0 and forall(lambda b: implies(0 <= b and b < len(HP0), ident(HP0[b]) < fr0 and hairpin_ok(HP0[b], E, DB)))",
+                "assert len(LC0) >= 0 and forall(lambda b: implies(0 <= b and b < len(LC0), cand_ok(LC0[b], E, DB)))"]},
+        {"when": "after", "at": "hairpins.append(", "loop": 1, "label": "hairpin",
+         # the hypotheses in reach of assert_last: the five restated facts of the block above, the branch condition, the
+         # callee's postcondition, then what is asserted here
+         "do": ["let h = hairpins[len(hairpins) - 1]", "let sd = h.strand",
+                "assert_last 12 strand_of(sd, candidate, DB) and E[p].pair == q + 1 and fr0 <= ident(h)",
+                "assert_last 13 sd.first == p + 1 and sd.last == q + 1 and strand_at(sd, E, DB, p, q - p + 1)",
+                "assert_last 14 hairpin_ok(h, E, DB)",
+                "assert_last 15 forall(lambda b: implies(0 <= b and b < len(HP0), ident(HP0[b]) < ident(h) and hairpin_ok(HP0[b], E, DB)))",
+                "assert_last 16 forall(lambda b: implies(0 <= b and b < len(hairpins), ident(hairpins[b]) < frontier() and hairpin_ok(hairpins[b], E, DB)))"]},
         {"when": "after", "at": "loop_candidates.append(", "loop": 1, "label": "loop-candidate",
          "do": ["let sd = loop_candidates[len(loop_candidates) - 1]",
-                "assert strand_of(sd, candidate, DB)",
-                "assert sd.first == p + 1 and sd.last == q + 1 and E[p].pair != q + 1",
-                "forall x | assert implies(p + 1 <= x and x < q, candidate[1:-1][x - p - 1] is E[x])"
-                " | assert implies(p + 1 <= x and x < q, E[x].pair == 0)",
-                "assert strand_at(sd, E, DB, p, q - p + 1)",
-                "assert cand_ok(sd, E, DB)",
-                "forall b | assert implies(0 <= b and b < len(LC0), loop_candidates[b] == LC0[b])"
-                " | assert implies(0 <= b and b < len(LC0), cand_ok(loop_candidates[b], E, DB))"]},
+                "assert_last 12 strand_of(sd, candidate, DB) and E[p].pair != q + 1 and E[p].pair != 0 and E[q].pair != 0",
+                "assert_last 13 sd.first == p + 1 and sd.last == q + 1 and strand_at(sd, E, DB, p, q - p + 1)",
+                "assert_last 14 cand_ok(sd, E, DB)",
+                "assert_last 15 forall(lambda b: implies(0 <= b and b < len(loop_candidates), cand_ok(loop_candidates[b], E, DB)))"]},
     ]
     loops = {
         0: {"index": "k", "inv": ["len(stems) == k", "stem_strands(stems, S, E, DB, k)", "stop_ends(stopset, E, S, k)"]},
